@@ -329,6 +329,58 @@ def check_lhs_selector_settles(form):
     return runner.from_exploration(name, Exploration(name, body).run())
 
 
+def check_castable_set_settles():
+    """ctx.set() on a target whose shape is a shape-castable (a struct-shaped signal, an enumeration-shaped signal, a view's
+    nested field) returns only after the combinational consequences have settled, exactly as for plain signals: the next
+    ctx.get() of dependent logic sees the new value.  Closed: every value of the listed shapes, real engine."""
+    from amaranth.hdl import Module, Signal
+    from amaranth.lib import data, enum as aenum
+    from amaranth.sim import Simulator
+
+    class Op(aenum.Enum, shape=2):
+        A = 0
+        B = 1
+        C = 3
+    L = data.StructLayout({"a": 2, "b": data.StructLayout({"x": 1, "y": 1})})
+    s = Signal(L, name="s")
+    e = Signal(Op, name="e")
+    o_sum, o_e, reg = Signal(3, name="o_sum"), Signal(3, name="o_e"), Signal(3, name="reg")
+    m = Module()
+    m.d.comb += [o_sum.eq(s.a + s.b.x + s.b.y), o_e.eq(e.as_value() + 1)]
+    m.d.sync += reg.eq(o_sum)
+    sim = Simulator(m)
+    sim.add_clock(1e-6)
+    bad = []
+
+    async def tb(ctx):
+        for a in range(4):
+            for x in range(2):
+                for y in range(2):
+                    ctx.set(s, {"a": a, "b": {"x": x, "y": y}})
+                    if ctx.get(o_sum) != a + x + y and not bad:
+                        bad.append({"written": f"ctx.set(s, {{'a': {a}, 'b': {{'x': {x}, 'y': {y}}}}})", "ctx.get(o_sum) right after": ctx.get(o_sum), "expected": a + x + y})
+                    ctx.set(s.b, {"x": 1 - x, "y": y})
+                    if ctx.get(o_sum) != a + (1 - x) + y and not bad:
+                        bad.append({"written": f"ctx.set(s.b, {{'x': {1 - x}, 'y': {y}}})", "ctx.get(o_sum) right after": ctx.get(o_sum), "expected": a + 1 - x + y})
+                    await ctx.tick()
+                    if ctx.get(reg) != a + (1 - x) + y and not bad:
+                        bad.append({"what": "the register captured a value derived from the old input", "reg": ctx.get(reg), "expected": a + 1 - x + y})
+        for member in Op:
+            ctx.set(e, member)
+            if ctx.get(o_e) != member.value + 1 and not bad:
+                bad.append({"written": f"ctx.set(e, {member!r})", "ctx.get(o_e) right after": ctx.get(o_e), "expected": member.value + 1})
+    sim.add_testbench(tb)
+    try:
+        sim.run()
+    except Exception as ex:
+        if not bad:
+            bad.append({"raised": repr(ex)[:300]})
+    name = "engine[set-settles,shape-castable]"
+    return {"task": name, "paths": 19, "solver_s": 0.0, "obligations": [
+        {"name": f"{name}::consequences-settled-when-set-returns", "kind": "post", "status": "proved" if not bad else "refuted", "backend": "closed",
+         "time_s": 0.0, **({} if not bad else {"failing_input": {**bad[0], "how": "real Simulator testbench: ctx.set on a struct- / enum-shaped signal, then ctx.get of logic that depends on it"}})}]}
+
+
 def check_testbench_order():
     """testbenches run in the order in which they were added, also when an earlier one wakes a later one in the middle of
     a pass: `monitor` (added second, waiting for `valid`) sees the data `driver` (added first) wrote, not what `other`
@@ -488,7 +540,7 @@ def check_kernel_agrees(k, e=None, broken=False):
 def tasks(tier):
     ts = [("engine-chain", edge, rot) for edge in ("pos", "neg") for rot in ((0, 1, 2, 3) if tier == "quick" else range(6))]
     ts += [("engine-proc", "comb"), ("engine-proc", "sync"), ("engine-proc", "after-reset"), ("engine-tb-order",)]
-    ts += [("engine-lhs-selector", f) for f in ("array", "bit_select", "word_select")]
+    ts += [("engine-lhs-selector", f) for f in ("array", "bit_select", "word_select")] + [("engine-castable-set",)]
     ts += kernel_tasks(tier)
     return ts
 
@@ -497,6 +549,8 @@ def run_task(task):
     k = task[0]
     if k == "engine-chain":
         return check_chain(task[1], task[2])
+    if k == "engine-castable-set":
+        return check_castable_set_settles()
     if k == "engine-lhs-selector":
         return check_lhs_selector_settles(task[1])
     if k == "engine-proc" and task[1] == "after-reset":
